@@ -30,7 +30,7 @@ WIdx(w) == CHOOSE i \in 1..N : WSeq[i] = w
 VARIABLES tid, l, obs
 tvars == <<vars, tid, l, obs>>
 
-NoObs == [kind |-> "none", coh |-> TRUE, wdom |-> TRUE, shiftok |-> TRUE, killed_ok |-> TRUE, alive0ok |-> TRUE]
+NoObs == [kind |-> "none", coh |-> TRUE, wdom |-> TRUE, shiftok |-> TRUE, killed_ok |-> TRUE, alive0ok |-> TRUE, shiftinit |-> TRUE]
 
 Ev == Tr[tid][l]
 IsEv(n) == l <= Len(Tr[tid]) /\ Tr[tid][l].ev = n
@@ -58,6 +58,7 @@ TEnter ==      \* the driver's call of a sampler entry point; the logged entry p
              /\ entry' = e /\ bs' = b
              /\ pc' = IF HasOptimize(e) THEN "opt" ELSE IF HasBuild(e) THEN "build" ELSE "entry_refresh"
        /\ sr' = 1 /\ ene' = 1 /\ step' = 1 /\ keySplits' = 0 /\ measures' = 0 /\ hist' = <<>>
+       /\ shiftSrc' = "carried"
        /\ UNCHANGED <<phase, iter, stale, alive, shiftOK, nKilled>>
 
 TOpt   == IsEv("Opt") /\ Consume /\ obs' = NoObs /\ Optimize
@@ -70,7 +71,9 @@ TProp  == /\ IsEv("Prop") /\ Consume
           /\ Step
           /\ alive' = Bits(Ev.alive1)                           \* which walkers died is read from the log
           /\ obs' = [kind |-> "Prop", coh |-> Ev.coh, wdom |-> Ev.wdom, shiftok |-> Ev.shiftok,
-                     killed_ok |-> TRUE, alive0ok |-> (Bits(Ev.alive0) = alive)]
+                     killed_ok |-> TRUE, alive0ok |-> (Bits(Ev.alive0) = alive),
+                     \* the first step of a sampler call must see shift = e_estimate (measured), i.e. not a carried one
+                     shiftinit |-> (shiftSrc = "estimate" => Ev.shift_is_est)]
 
 TQR    == /\ IsEv("QR") /\ Consume /\ obs' = NoObs
           /\ \/ BlockQR \/ DriverQR
@@ -131,6 +134,7 @@ BadName ==
   ELSE IF ~obs.wdom THEN "WeightDomain"
   ELSE IF ~obs.alive0ok THEN "AliveBitsConsistent"
   ELSE IF obs.kind = "Prop" /\ AnyAlive(alive) /\ ~obs.shiftok THEN "ShiftFiniteWhileAlive"
+  ELSE IF ~obs.shiftinit THEN "ShiftInitialised"
   ELSE IF ~obs.killed_ok THEN "KilledFraction"
   ELSE IF pc = "ret" /\ hist # Expected(bs, HasSR(entry)) THEN "SameEstimator"
   ELSE ""
